@@ -156,7 +156,11 @@ func (m *Thread) Run() {
 			core.LogInfo(m, "Control command name ", interest.Name().String(), " has unexpected number of components - DROP")
 			continue
 		}
-		if !m.localPrefix.IsPrefix(interest.NameV) && !m.nonLocalPrefix.IsPrefix(interest.Name()) {
+		// The /localhop prefix is only served when localhop management is enabled. It is not
+		// enough that the FIB has no /localhop/nfd entry in that case: an Interest can still
+		// reach the internal face through a forwarding hint or NextHopFaceId.
+		if !m.localPrefix.IsPrefix(interest.NameV) &&
+			!(enableLocalhopManagement && m.nonLocalPrefix.IsPrefix(interest.NameV)) {
 			core.LogInfo(m, "Control command name ", interest.Name(), " has unexpected prefix - DROP")
 			continue
 		}
